@@ -235,6 +235,36 @@ func init() {
 				}
 			}
 		}
+		// hosts that are address literals (IPv6 in brackets, IPv4), with and without a port: equal exactly when host
+		// and port agree; outside the model's host grammar (brackets, colons inside the host), judged by the oracle
+		{
+			hosts := []string{"[2001:db8::1]", "[2001:db8::2]", "[2001:DB8::1]", "[2001:db9::1]", "[::1]", "[::1]:8080", "[::1]:8081", "[::2]:8080",
+				"[fe80::1%25eth0]", "192.0.2.1", "192.0.2.1:8080", "192.0.2.1:8081", "192.0.2.2:8080", "example.com:8080", "example.com:8081"}
+			tails := []string{"", "/", "/a", "/a/", "/a?x=1", "/A#f"}
+			var urls []string
+			for _, h := range hosts {
+				for _, t := range tails {
+					urls = append(urls, "https://"+h+t)
+				}
+				urls = append(urls, "http://"+h+"/a")
+			}
+			for _, a := range urls {
+				for _, b := range urls {
+					for _, cs := range []bool{false, true} {
+						want := iriEq(a, b) && (!cs || strings.EqualFold(a[:strings.Index(a, ":")], b[:strings.Index(b, ":")]))
+						got, pan := implEquals(a, b, cs)
+						in := map[string]interface{}{"op": "iriEquals", "a": hx([]byte(a)), "b": hx([]byte(b)), "cs": cs, "as": a, "bs": b, "oracleOnly": true}
+						c.Count(in, a != b)
+						c.Tag("address-literal-host")
+						if pan != "" {
+							c.Fail("C14/panic", pan, in)
+						} else if got != want {
+							c.Fail("C14/grid", fmt.Sprintf("Equals(%q, %q, %v) = %v but host (with port), cleaned path and query agree = %v", a, b, cs, got, want), in)
+						}
+					}
+				}
+			}
+		}
 		// every pair of short strings over the characters the textual fast path looks at
 		var short []string
 		short = append(short, "")
